@@ -1,7 +1,7 @@
 CONSTANTS
   B = 4
   MemSize = 8
-  PtrVals = {0,1,2,3}
+  PtrVals = {0,1,2}
   DataInit <- DataSmall
   MaxOps = 2
   Dev = "none"
